@@ -340,6 +340,32 @@ def run(ctx):
                   "each received Full(buffer) is applied to the sketch exactly once under its write lock (%d loop paths)" % len(paths), c.where(R),
                   "; ".join("%s %s" % (w_, q.show()) for w_, q in bad[:3]))
 
+    # ---- R15.9 the sketch side of "applied": the function the consumer hands the buffer to visits *every* hash in it, once
+    # (an element loop over the whole vector - not `.skip(1)`, `.take(n)`, a filter - whose body records that element)
+    from iters import elem_loops, ELEM
+    n_apply = 0
+    for n_, g in sorted(F.fns.items()):
+        if g.kind == "Closure" or g.argc < 2 or not g.locals[2]["ty"].startswith("std::vec::Vec<u64"):
+            continue
+        if "AF" not in " ".join(sorted(set().union(*[site_effects(F, h, b_)["acquire"] for h in F.fns.values() for b_, t_ in h.calls() if t_.get("rpath") == n_] or [set()]))) and \
+                not any("AF" in h.held_before_term(b_) for h in F.fns.values() for b_, t_ in h.calls() if t_.get("rpath") == n_):
+            continue
+        # a wrapper that only hands the vector on (takes the lock, calls the sketch) is judged at the function it calls
+        if any(t_["res"] == "item" and t_.get("rlocal") and any(g.op_origin(a_) == ("param", 2) for a_ in t_["args"]) for b_, t_ in g.calls()):
+            continue
+        n_apply += 1
+        loops = [L_ for L_ in elem_loops(F, g, stop=lambda x: x in F.fns and F.fns[x].kind != "Closure") if L_.over_all(lambda c_: strip_site(c_) == ("param", 2)) is not None]
+        okl = len(loops) == 1 and not (loops[0].extra or {}).get("adaptors")
+        if okl:
+            k_ = loops[0].over_all(lambda c_: strip_site(c_) == ("param", 2))
+            for q in loops[0].bodies or []:
+                rec = [e for e in q.events if not e.log and e.t["res"] == "item" and e.t.get("rlocal") and any(mentions(a, lambda s_: s_ == ELEM(k_)) for a in e.args)]
+                okl = okl and len(rec) == 1
+            okl = okl and bool(loops[0].bodies)
+        ctx.check(okl, "R15.9", "%s|every-hash-of-the-buffer-recorded" % n_,
+                  "the buffer handed to the sketch is walked completely: one element loop over the whole vector, each element recorded once", g.where())
+    ctx.floor("R15.9", "functions applying a buffer to the sketch", n_apply, 1)
+
     # ---- R15.6 reads never wait ------------------------------------------------------------------------
     for f in reads:
         ctx.touch(f)
